@@ -13,6 +13,8 @@ import traceback
 
 from . import gfi_build as gb
 
+# closure programs of the catalogue -> the catalogue entry of the function they wrap (for sibling-closure edits)
+UNDER = {"Clo1": "S2", "Clo2": "S2", "Clo0": "SChain", "CloSw": "SwSame", "CloVm": "VmAx"}
 REJECT = ("NotImplementedError", "NotSupportedEditRequest", "AssertionError")
 T0 = {"args": [], "choices": [], "score": 0, "ret": gb.NN}
 NOSEL = {"t": "none", "p": [], "k": []}
@@ -222,7 +224,7 @@ class Runner:
                 tr = newtr
                 cur_argsV = ev["post"]["args"]
             events.append(ev)
-            if tr is None:
+            if tr is None or ev.pop("stop", False):
                 break
         return events
 
@@ -348,6 +350,29 @@ class Runner:
                 return req.edit(k, t, self.argdiffs(a, tags))
             return f
 
+        upid = UNDER.get(pid)
+        if clo and p["n"] == 0 and ns > 0 and upid and ev["tid"] % 4 == 3 and op in ("update", "regenerate") and not masked:
+            import jax
+            storedV2 = [dict(v, i=(v["i"] + 1) % 3) if v["t"] == "i" else v for v in p["x"]]
+            if storedV2 != list(p["x"]):
+                stored2 = tuple(gb.val_to_py(v) for v in storedV2)
+                sib = under(*stored2)                                      # another closure of the same function
+                up = self.cat[upid]["p"]
+                req = self.make_request(rq, p, vals, idx, flags)
+                new, w, retdiff, bwd = sib.edit(k1, tr, req, self.argdiffs(new_args, tags))
+                ev["pid"] = upid
+                ev["via"] = "sibling-closure"
+                ev["pre"] = self.proj_trace(upid, tr)
+                ev["post"] = self.proj_trace(upid, new)
+                ev["reqargs"] = storedV2 + list(argsV)
+                ev["tags"] = ["U"] * ns + list(tags)
+                ev["w"] = gb.fx(w)
+                ev["retdiff"] = self.proj_retdiff(retdiff, tr.get_retval())
+                if isinstance(bwd, Update):
+                    ev["disc"] = gb.proj_chm(bwd.constraint, self.cat[upid]["addrs"])
+                    ev["hasdisc"] = True
+                ev["stop"] = True
+                return new
         new, w, retdiff, bwd = self.fn(_skey(pid, "edit", rkey), lambda: mk_edit(rq))(k1, tr, vals, flags, idx, new_args)
         if masked and "maskeq" in self.want and op == "update":
             try:
